@@ -63,6 +63,8 @@ fn check_against_reader(acc: &mut Acc, sub: &'static str, rank: u64, text: &[u8]
     if sub == "corpus-vs-reference" {
         check_against_reader_src(acc, sub, rank, text, po, 1);
         check_against_reader_src(acc, sub, rank, text, po, 2);
+        check_against_reader_src(acc, sub, rank, text, po, 3);
+        check_against_reader_src(acc, sub, rank, text, po, 4);
     }
 }
 
@@ -72,6 +74,9 @@ fn check_against_reader_src(acc: &mut Acc, sub: &'static str, rank: u64, text: &
     let actual = match src {
         0 => parse_slice(text, po.to_lexpr()),
         1 => crate::outcome::parse_reader(text, po.to_lexpr()),
+        // the datum API has its own token dispatch and list reader (seed C08-g1)
+        3 => crate::outcome::norm(crate::util::guard(|| lexpr::datum::from_slice_custom(text, po.to_lexpr()).map(|d| d.value().clone()))),
+        4 => crate::outcome::norm(crate::util::guard(|| lexpr::datum::from_reader_custom(text, po.to_lexpr()).map(|d| d.value().clone()))),
         _ => match std::str::from_utf8(text) {
             Ok(t) => crate::outcome::parse_str(t, po.to_lexpr()),
             Err(_) => return,
@@ -119,7 +124,7 @@ fn check_against_reader_src(acc: &mut Acc, sub: &'static str, rank: u64, text: &
         };
         let cls = format!("{}->{}", mk, ak);
         let (h, pi) = (hex(text), po.index());
-        acc.violation(sub, kind, &format!("{}:{}", kind, cls), rank, format!("source={} input={:?} opts=[{}]", ["slice", "reader", "str"][src as usize], show_bytes(text), po.describe()), detail, || json!({"input_hex": h, "po": pi}));
+        acc.violation(sub, kind, &format!("{}:{}", kind, cls), rank, format!("source={} input={:?} opts=[{}]", ["slice", "reader", "str", "datum-slice", "datum-reader"][src as usize], show_bytes(text), po.describe()), detail, || json!({"input_hex": h, "po": pi}));
     }
 }
 
@@ -370,7 +375,7 @@ pub fn replay(sub: &str, case: &J, acc: &mut Acc) {
     match sub {
         "corpus-vs-reference" => check_against_reader(acc, "corpus-vs-reference", 0, &input, &po),
         "token-pairs" => {
-            for src in 0..3 {
+            for src in 0..5 {
                 check_against_reader_src(acc, "token-pairs", 0, &input, &po, src);
             }
         }
@@ -520,7 +525,7 @@ pub fn run(ctx: &Ctx) -> Report {
             let (t1, t2) = (&tokens[(c / nt) as usize], &tokens[(c % nt) as usize]);
             let text = format!("({} {})", t1, t2).into_bytes();
             acc.sample(rank, || format!("{:?} [{}]", show_bytes(&text), po.describe()));
-            for src in 0..3 {
+            for src in 0..5 {
                 check_against_reader_src(acc, "token-pairs", rank, &text, po, src);
             }
         });
